@@ -41,30 +41,6 @@ impl Clone for BlockSeverity {
 
 impl Copy for BlockSeverity {}
 
-// ---- attribute lookup by &str in a HashMap<String, String> ------------------------------------
-// vstd specifies `get`/`contains_key` with a borrowed key through the uninterpreted predicates
-// `contains_borrowed_key` / `maps_borrowed_key_to_value`; for Key = String, Q = str they are tied
-// to the string contents here (T-std: `String: Borrow<str>` hashes and compares like the str).
-pub uninterp spec fn attr(m: Map<String, String>, k: Seq<char>) -> Option<String>;
-
-pub broadcast axiom fn axiom_attr_contains(m: Map<String, String>, k: &str)
-    ensures
-        #[trigger] vstd::std_specs::hash::contains_borrowed_key::<String, String, str>(m, k) <==> attr(m, k@) is Some;
-
-pub broadcast axiom fn axiom_attr_maps(m: Map<String, String>, k: &str, v: String)
-    ensures
-        #[trigger] vstd::std_specs::hash::maps_borrowed_key_to_value::<String, String, str>(m, k, v) <==> attr(m, k@) == Some(v);
-
-/// T-std: String's Hash/Eq are functions of its contents
-pub broadcast axiom fn axiom_string_key_model()
-    ensures #[trigger] vstd::std_specs::hash::obeys_key_model::<String>();
-
-pub broadcast group group_attr {
-    axiom_attr_contains,
-    axiom_attr_maps,
-    axiom_string_key_model,
-}
-
 pub open spec fn attr_view(m: Map<String, String>, k: Seq<char>) -> Option<Seq<char>> {
     match attr(m, k) { Some(v) => Some(v@), None => None }
 }
